@@ -299,6 +299,29 @@ def handlerEmit (catchErr serialize : Bool) (strOf : Nat → Except Err Str) (fo
 def sinkLines (catchErr serialize : Bool) (strOf : Nat → Except Err Str) (h : List (Str × Record)) : List Str :=
   h.filterMap (fun p => match handlerEmit catchErr serialize strOf p.1 p.2 with | .wrote s => some s | _ => none)
 
+/-- one serialising handler inside a logging call that is dispatched to several handlers SHARING the record:
+`pre` is what its filter and its dynamic format function do to the record before it is formatted, `fmt` the
+text its format produces from the record it then sees, `post` what its sink does to `message.record` -/
+structure HandlerSpec where
+  pre : Record → Record
+  fmt : Record → Str
+  post : Record → Record
+
+/-- `Logger._log`: `for handler in core.handlers.values(): handler.emit(record, …)` – the handlers get the same
+record object one after the other; each serialises what IT sees.  `_serialize_record` keeps nothing between
+two calls (`Gen.serializeIsPure`). -/
+def dispatch (strOf : Nat → Except Err Str) : List HandlerSpec → Record → List (Except Err Str)
+  | [], _ => []
+  | h :: t, r =>
+    if Gen.serializeIsPure then emit true strOf (h.fmt (h.pre r)) (h.pre r) :: dispatch strOf t (h.post (h.pre r))
+    else []
+
+/-- the record as the i-th handler sees it when it formats and serialises -/
+def seenBy : List HandlerSpec → Record → Nat → Option Record
+  | [], _, _ => none
+  | h :: _, r, 0 => some (h.pre r)
+  | h :: t, r, i + 1 => seenBy t (h.post (h.pre r)) i
+
 /-- what a line-by-line reader (`for line in file`, `readline()`; NDJSON consumers) makes of a text without
 CR: the maximal chunks ending in LF, plus a last unterminated chunk if there is one.  `cur` is the current
 chunk, reversed. -/
